@@ -565,6 +565,10 @@ def _kept_indices(idx, cfield, size, th_terms):
                 if len(args) == 2:
                     return list(range(args[0], args[1]))
                 return list(range(args[0], args[1], args[2]))
+            if name.startswith(("numpy.", "jax.numpy.")) and short_ == "flatnonzero" \
+                    and len(args) == 1 and isinstance(args[0], list):
+                # positions where the mask is set == arange(len(mask))[mask]
+                return [i for i, keep in enumerate(args[0]) if keep]
             if name in ("len",):
                 return len(args[0])
             if name in ("range",):
